@@ -32,20 +32,43 @@ def worker(np_, nbox):
         out["entries"] = []        # planners renamed: only the streams of the two paths are compared
         out["traces"] = record.record_many(stream_box(nbox), procs=8)
         return out
-    tab = mx.mixed_steps_tabulation(np_, np_ - 1)
+    RAISED = [-1, -1, -1]        # a planner that raises prescribes nothing: encoded as an impossible triple
+
+    def memo(n, s):
+        try:
+            m = mx.mixed_step_memoization(n, s)
+            return [int(m[0]), int(m[1]), int(m[2])], None
+        except Exception as ex:
+            return RAISED, f"{type(ex).__name__}: {ex}"[:120]
+
+    def table(n, s):
+        try:
+            return mx.mixed_steps_tabulation(n, s), None
+        except Exception as ex:
+            return None, f"{type(ex).__name__}: {ex}"[:120]
+
+    def entry(n, s, tab, terr, src):
+        m, merr = memo(n, s)
+        if tab is None:
+            t = RAISED
+        else:
+            try:
+                t = [int(tab[n, s, 0]), int(tab[n, s, 1]), int(tab[n, s, 2])]
+            except Exception as ex:
+                t, terr = RAISED, f"{type(ex).__name__}: {ex}"[:120]
+        e = {"n": n, "s": s, "m": m, "t": t, "src": src}
+        if merr or (terr and t == RAISED):
+            e["raised"] = {"memoised": merr, "tabulated": terr if t == RAISED else None}
+        return e
+
+    tab, terr = table(np_, np_ - 1)
     for n in range(1, np_ + 1):
         for s in range(1, n):
-            m = mx.mixed_step_memoization(n, s)
-            entries.append({"n": n, "s": s, "m": [int(m[0]), int(m[1]), int(m[2])],
-                            "t": [int(tab[n, s, 0]), int(tab[n, s, 1]), int(tab[n, s, 2])],
-                            "src": f"table({np_},{np_-1})[{n},{s}]"})
+            entries.append(entry(n, s, tab, terr, f"table({np_},{np_-1})[{n},{s}]"))
     for n in range(2, min(np_, 18) + 1):
         for s in range(1, n):
-            t2 = mx.mixed_steps_tabulation(n, s)
-            m = mx.mixed_step_memoization(n, s)
-            entries.append({"n": n, "s": s, "m": [int(m[0]), int(m[1]), int(m[2])],
-                            "t": [int(t2[n, s, 0]), int(t2[n, s, 1]), int(t2[n, s, 2])],
-                            "src": f"table({n},{s})[{n},{s}]"})
+            t2, e2 = table(n, s)
+            entries.append(entry(n, s, t2, e2, f"table({n},{s})[{n},{s}]"))
     out["entries"] = entries
     out["traces"] = record.record_many(stream_box(nbox), procs=8)
     return out
@@ -74,7 +97,8 @@ def check(ctx):
     for (x,) in (tlc.marked(r) if r is not None else []):
         e = w["entries"][x - 1]
         viols.append({"property": "C16", "clause": "C16.table", "cls": "planner", "p": {}, "N": e["n"],
-                      "what": f"{e['src']}: memoised {e['m']} vs tabulated {e['t']}",
+                      "what": f"{e['src']}: memoised {e['m']} vs tabulated {e['t']}"
+                              + (f" (raised: {e['raised']})" if e.get("raised") else ""),
                       "trace": {"entry": e}})
     claims = []
     for e in w["entries"]:
